@@ -23,7 +23,7 @@ T = {
  'C16-1': dict(breaks='C16', what='tensor_product computed block-wise above 2**23 elements drops the last partial row block', needs='a tensor block with n_rows * m_a * m_b > 2**23 and n_rows not a multiple of the block size', caught_by=['C16'], strengthened='C16 gained the columns.large stream (9.6M-element tensor block and literal-seeded sizes; rows compared with rows built alone) after missing it'),
  'C16-2': dict(breaks='C16', what='by-variable handling moved to a helper that tests `if not self.by`', needs='a spline or tensor term whose by-variable is feature 0', caught_by=['C16', 'C02']),
  'C20-1': dict(breaks='C20', what='tolerance floored at sqrt(eps) inside _pirls', needs='tol below 1.5e-8 on a model whose diffs plateau between tol and sqrt(eps) (Logistic / Poisson / Gamma)', caught_by=['C20']),
- 'C20-2': dict(breaks='C20', what='callback dispatch refactor drops hook results that are None', needs='a user callback whose hook returns None on some or all iterations', caught_by=[], strengthened='pending: C20 builder is adding None-returning user callbacks'),
+ 'C20-2': dict(breaks='C20', what='callback dispatch refactor drops hook results that are None', needs='a user callback whose hook returns None on some or all iterations', caught_by=['C20'], strengthened='C20 gained None-returning user callbacks (always / on even iterations; start, end, both) after missing it'),
 }
 for k, v in T.items():
     d = os.path.join(HERE, 'seeded', k)
